@@ -327,6 +327,42 @@ func GRPCSpec(r *vc.Rand, id string) *spec.Spec {
 		}
 		return t
 	}
+	// a recursive user type reached through an array, a map value or directly: the
+	// validators and finalizers walking gRPC messages must terminate on it
+	var rec []string
+	if r.Chance(1, 2) {
+		for k, via := range []string{"array", "map", "direct"} {
+			if !r.Chance(1, 2) {
+				continue
+			}
+			name := []string{"Tree", "Index", "Chain"}[k]
+			self := &spec.Type{Kind: spec.Ref, Ref: name}
+			var t *spec.Type
+			switch via {
+			case "array":
+				t = &spec.Type{Kind: spec.Array, Elem: &spec.Attr{Type: self}}
+			case "map":
+				t = &spec.Type{Kind: spec.Map, Key: &spec.Attr{Type: &spec.Type{Kind: spec.String}}, Elem: &spec.Attr{Type: self}}
+			default:
+				t = self
+			}
+			def := &spec.Type{Kind: spec.Object, Attrs: []*spec.Attr{
+				{Name: "label", Type: &spec.Type{Kind: spec.String}, Tag: 1},
+				{Name: "kids", Type: t, Tag: 2},
+			}}
+			s.Types = append(s.Types, &spec.UserType{Name: name, Kind: "type", Def: def})
+			rec = append(rec, name)
+			s.AddFeature("grpc-recursive-" + via)
+		}
+	}
+	plain := obj
+	obj = func() *spec.Type {
+		t := plain()
+		if len(rec) > 0 && r.Chance(1, 2) {
+			t.Attrs = append(t.Attrs, &spec.Attr{Name: "india", Type: &spec.Type{Kind: spec.Ref, Ref: rec[r.Intn(len(rec))]}, Tag: len(t.Attrs) + 1})
+		}
+		return t
+	}
 	sv := &spec.Service{Name: r.Pick("calc", "storage", "tracker"), GRPC: true, NoHTTP: true}
 	nm := r.Range(1, 3)
 	for j := 0; j < nm; j++ {
